@@ -65,7 +65,7 @@ class VAbortOperation(FloatOperation):
 
     def _process_logic(self, data):
         CALL_LOG.append(("VAbortOperation", data.data))
-        raise VAbort("abort")
+        raise VAbort()      # no message: str(exc) == "" (like KeyboardInterrupt())
 
 
 class VAffineOperation(FloatOperation):
@@ -270,3 +270,12 @@ class VCtxScaleWrite(FloatOperation):
         CALL_LOG.append(("VCtxScaleWrite", data.data, factor))
         self._notify_context_update("w", data.data * factor)
         return FloatDataType(data.data * factor)
+
+
+class VInPlaceIncrement(FloatOperation):
+    """Add 1 to the payload IN PLACE and return the very object that was received (typical of array code)."""
+
+    def _process_logic(self, data):
+        CALL_LOG.append(("VInPlaceIncrement", data.data))
+        data._data = data.data + 1.0
+        return data
